@@ -106,7 +106,15 @@ def run_case(ld, prog, aspects, prefix_hook=None, watchdog_s=8):
                           'ops': prog['ops']}
                 sb, mb = programs.classify(prog_b)
                 if sb == 'ok' and mb.finite:
-                    da, db = programs.build(ld, prog), programs.build(ld, prog_b)
+                    # building the pipeline a second time / beside a
+                    # neighbour is part of what is observed: a refusal here
+                    # (the first build went through) is interference
+                    built = ob.guarded(lambda: (programs.build(ld, prog),
+                                                programs.build(ld, prog_b)))
+                    if ob.is_err(built):
+                        o['neighbour'] = (built, list(mb.values), built, None)
+                        return status, m, o
+                    da, db = built
 
                     def lockstep():
                         ia, ib = iter(da), iter(db)
@@ -124,6 +132,32 @@ def run_case(ld, prog, aspects, prefix_hook=None, watchdog_s=8):
                                       ob.guarded(lambda: (tuple(da.keys()), tuple(db.keys()))),
                                       (list(mb.labels) if mb.listable
                                        and mb.labelstate != 'none' else None))
+            if 'neighbour' in aspects and status == 'ok' and m.finite \
+                    and len(prog['src']) <= 3 and stable_hash(repr(prog)) % 6 == 2:
+                # object lifetime: only a copy of the pipeline survives (the
+                # original and its source are released), then the same program
+                # is built over a source with other keys / another key order.
+                # Tables keyed by id() or by address outlive their owner
+                # through such an orphaned copy and are met again by the
+                # successor that is allocated at the freed address.
+                prog_b = {'src': tuple(prog['src'][:3])
+                          + ('k' if stable_hash(repr(prog)) % 2 else 'n', 1000),
+                          'ops': prog['ops']}
+                sb, mb = programs.classify(prog_b)
+                if sb == 'ok' and mb.finite:
+                    def successor():
+                        import gc
+                        d0 = programs.build(ld, prog)
+                        orphan = d0.copy(freeze=bool(stable_hash(repr(prog)) % 5 == 0))
+                        del d0
+                        gc.collect()
+                        outs = []
+                        for _ in range(2):
+                            d1 = programs.build(ld, prog_b)
+                            outs.append(list(d1))
+                            del d1
+                        return list(orphan), outs
+                    o['successor'] = (ob.guarded(successor), list(mb.values))
             return status, m, o
     except ob.Watchdog:
         return 'watchdog', m, None
@@ -216,6 +250,17 @@ def judge_c01(prog, status, m, o, res):
                            'neighbour': None if is_err(got) else got[1],
                            'neighbour_want': want_b}, sig={'last_op': lo})
             return True
+    if 'successor' in o:
+        res.count('successors_of_released_pipelines_compared')
+        got, want_b = o['successor']
+        if is_err(got) or list(got[0]) != want[0] or \
+                any(list(x) != want_b for x in got[1]):
+            res.violation('pipelines-interfere', case,
+                          {'orphaned_copy': got if is_err(got) else got[0], 'want': want[0],
+                           'successors': None if is_err(got) else got[1],
+                           'successors_want': want_b},
+                          sig={'last_op': lo, 'aspect': 'successor'})
+            return True
     if 'partial' in o:
         res.count('partial_then_full_compared')
         if o['partial'][1] != it1:
@@ -257,6 +302,12 @@ def judge_c02(prog, finite, o, res, labels='?'):
     case = {'prog': prog}
     lo = last_op(prog)
     it1 = o.get('iter1')
+    ln = o['len']
+    la = o.get('len_again', ln)
+    if is_err(ln) != is_err(la) or (not is_err(ln) and ln != la):
+        res.violation('len-changes-between-calls', case, {'first': ln, 'again': la},
+                      sig={'last_op': lo})
+        return True
     if finite and is_err(it1) and o.get('indexable') is True and not is_err(o.get('len')) \
             and labels != '?':
         # iteration fails although the dataset calls itself indexable, has a
